@@ -320,7 +320,7 @@ class OptimizeKLConfig:
                     elif tmp[1].lower() == "false":
                         vv = False
                     else:
-                        ValueError(f"{tmp[1]} is not boolean")
+                        raise ValueError(f"{tmp[1]} is not boolean")
                 elif tmp[0] == "float":
                     vv = float(tmp[1])
                 elif tmp[0] == "int":
